@@ -32,8 +32,9 @@ AMBIENT_EXT = {
     "tempfile.gettempdir": "environment", "builtins.id": "object identity", "builtins.hash": "hash seed", "builtins.input": "stdin",
     "os.listdir": "directory order", "os.scandir": "directory order", "glob.glob": "directory order", "glob.iglob": "directory order",
     "threading.get_ident": "thread", "threading.current_thread": "thread",
+    "os.path.abspath": "cwd", "os.path.realpath": "cwd", "os.path.relpath": "cwd", "pathlib.Path.resolve": "cwd", "pathlib.Path.absolute": "cwd",
 }
-AMBIENT_METHODS = {".iterdir": "directory order", ".glob": "directory order", ".rglob": "directory order"}
+AMBIENT_METHODS = {".iterdir": "directory order", ".glob": "directory order", ".rglob": "directory order", ".resolve": "cwd", ".absolute": "cwd"}
 
 # frozen allow-list: (function fqn, kind) -> reason (confirmed by reading)
 ALLOWED_AMBIENT = {
@@ -42,6 +43,8 @@ ALLOWED_AMBIENT = {
     ("octave_mcp.schemas.loader:get_schema_search_paths", "cwd"): "project schema directories are cwd-relative by design; ordered after the packaged ones (R06.5)",
     ("octave_mcp.core.ast_nodes:Absent.__hash__", "hash seed"): "__hash__ of the Absent singleton: only makes it usable as a dict/set member; no ordering or output derives from it (set order is R06.2)",
     ("octave_mcp.schemas.loader:load_builtin_schemas", "directory order"): "unused helper (no caller in the package; not reachable from any tool or pipeline entry); fills a dict keyed by schema name",
+    ("octave_mcp.mcp.validate:ValidateTool._validate_path", "cwd"): "a relative path argument is relative to the working directory by definition; the validator only refuses or accepts it (symlink walk over the absolute form), it contributes no bytes to a result",
+    ("octave_mcp.mcp.write:WriteTool._validate_path", "cwd"): "same: refusal / acceptance of the caller's own path argument",
     ("octave_mcp.core.hydrator:resolve_hermetic_standard", "home"): "~/.octave/standards is where frozen@/latest schema text lives: it is 'the named schema's text'",
 }
 
@@ -126,7 +129,8 @@ def _r06_8(run: Run) -> None:
                     enc = c.args[0]
                 if enc is None and kind == "write_text" and len(c.args) > 1:
                     enc = c.args[1]
-                ok = binary or (isinstance(enc, ast.Constant) and isinstance(enc.value, str))
+                enc_v = run.project.try_fold(m, enc) if enc is not None else None
+                ok = binary or isinstance(enc_v, str)
                 if mode is not None and not isinstance(mode, ast.Constant) and enc is None:
                     ok = False  # a computed mode may be text
                 n += 1
@@ -444,7 +448,7 @@ def class_state_writes(m: Module, ci) -> list[tuple[ast.AST, str, str]]:
     return out
 
 
-def _r06_3(run: Run, res: Resolver) -> None:
+def _r06_3(run: Run, res: Resolver, rule: str = "R06.3") -> None:
     n_bind = 0
     for m in run.project.modules.values():
         state = module_state(m)
@@ -456,12 +460,12 @@ def _r06_3(run: Run, res: Resolver) -> None:
                 findings.append((fi, node, what))
         # writes through `module.NAME[...] = ` from other modules
         if state:
-            run.instance("R06.3", m.relpath, f"{len(state)} module-level binding(s) ({sum(1 for _, _, k in state if k == 'mutable')} mutable), {len(findings)} write(s) from functions", ok=not findings)
+            run.instance(rule, m.relpath, f"{len(state)} module-level binding(s) ({sum(1 for _, _, k in state if k == 'mutable')} mutable), {len(findings)} write(s) from functions", ok=not findings)
         for fi, node, what in findings:
-            run.violation("R06.3", m, fi.qualname, node, f"{what}: module state written after import makes results depend on which calls the process served earlier")
+            run.violation(rule, m, fi.qualname, node, f"{what}: module state written after import makes results depend on which calls the process served earlier")
         for ci in m.classes.values():
             for node, fq, what in class_state_writes(m, ci):
-                run.violation("R06.3", m, fq, node, f"{what}: shared state written after import")
+                run.violation(rule, m, fq, node, f"{what}: shared state written after import")
     # cross-module writes: `othermod.NAME = ...` or `othermod.NAME.mutator()`
     for fi in run.project.all_functions():
         for n in walk_no_nested(fi.node):
@@ -486,10 +490,10 @@ def _r06_3(run: Run, res: Resolver) -> None:
                     om = run.project.modules[r[1]]  # type: ignore[index]
                     attr = chain[-1]
                     if om.has_const(attr):
-                        run.violation("R06.3", fi.module, fi.qualname, n, f"write to `{r[1]}.{attr}` from another module: module state written after import")
+                        run.violation(rule, fi.module, fi.qualname, n, f"write to `{r[1]}.{attr}` from another module: module state written after import")
                 if r and r[0] == "const":
                     om, attr = r[1]  # type: ignore[misc]
-                    run.violation("R06.3", fi.module, fi.qualname, n, f"write through imported module-level name `{base.id}` (= {om.name}.{attr})")
+                    run.violation(rule, fi.module, fi.qualname, n, f"write through imported module-level name `{base.id}` (= {om.name}.{attr})")
     run.extra["module_level_bindings"] = n_bind
     # accessor aliasing: functions that return a module-level mutable (or an item of it) hand out shared storage; callers must not write it
     for m in run.project.modules.values():
@@ -503,10 +507,10 @@ def _r06_3(run: Run, res: Resolver) -> None:
                     while isinstance(base, ast.Subscript):
                         base = base.value
                     if isinstance(base, ast.Name) and names.get(base.id) == "mutable":
-                        _check_alias_uses(run, res, fi, base.id)
+                        _check_alias_uses(run, res, fi, base.id, rule)
 
 
-def _check_alias_uses(run: Run, res: Resolver, accessor: FuncInfo, state_name: str) -> None:
+def _check_alias_uses(run: Run, res: Resolver, accessor: FuncInfo, state_name: str, rule: str = "R06.3") -> None:
     """every caller of `accessor` uses the result read-only"""
     n_callers = 0
     for fi in run.project.all_functions():
@@ -551,9 +555,9 @@ def _check_alias_uses(run: Run, res: Resolver, accessor: FuncInfo, state_name: s
                                 b = b.value
                             if isinstance(b, ast.Name) and b.id in aliases:
                                 writes.append(a)
-                    run.instance("R06.3", fi.module.loc(n), f"{fi.qualname}: result of {accessor.qualname} (alias of module-level {state_name}) is used read-only via {sorted(aliases)}", ok=not writes)
+                    run.instance(rule, fi.module.loc(n), f"{fi.qualname}: result of {accessor.qualname} (alias of module-level {state_name}) is used read-only via {sorted(aliases)}", ok=not writes)
                     for w in writes:
-                        run.violation("R06.3", fi.module, fi.qualname, w, f"write through an alias of module-level `{state_name}` obtained from {accessor.qualname}(): later calls in this process see the modified schema")
+                        run.violation(rule, fi.module, fi.qualname, w, f"write through an alias of module-level `{state_name}` obtained from {accessor.qualname}(): later calls in this process see the modified schema")
 
 
 # ------------------------------------------------------------------ R06.4
